@@ -752,6 +752,35 @@ fn send_from(net: &mut Net, src: usize, c_in: usize, c_out: usize, amt: u64, fee
 	Ok(Fwd { hash, preimage, src, up_chan: c_in, up_id, in_amt: amt + fee_b, out_amt: amt, pay: net.pays.len() - 1 })
 }
 
+/// src -> B -> C twice: ONE payment (one payment hash) whose two parts both cross c_in and c_out (two forwarded HTLCs with the same
+/// payment hash on the downstream channel)
+fn send_mpp_from(net: &mut Net, src: usize, c_in: usize, c_out: usize, amts: [u64; 2], fees: [u64; 2], delta_b: u32, final_delta: u32, n: u64) -> Result<Vec<Fwd>, String> {
+	let mut pre = [0x7du8; 32]; pre[..8].copy_from_slice(&n.to_be_bytes());
+	let preimage = lightning::types::payment::PaymentPreimage(pre);
+	let hash = lightning::types::payment::PaymentHash({ use bitcoin::hashes::{sha256, Hash}; sha256::Hash::hash(&pre).to_byte_array() });
+	let total = amts[0] + amts[1];
+	let secret = net.nodes[C].node.create_inbound_payment_for_hash(hash, Some(total), 7200, None, None).map_err(|_| "create_inbound_payment_for_hash".to_string())?.0;
+	let path = |amt: u64, fee: u64| Path { hops: vec![
+		RouteHop { pubkey: net.ids[B], node_features: NodeFeatures::empty(), short_channel_id: net.chans[c_in].3, channel_features: ChannelFeatures::empty(), fee_msat: fee, cltv_expiry_delta: delta_b, maybe_announced_channel: true },
+		RouteHop { pubkey: net.ids[C], node_features: NodeFeatures::empty(), short_channel_id: net.chans[c_out].3, channel_features: ChannelFeatures::empty(), fee_msat: amt, cltv_expiry_delta: final_delta, maybe_announced_channel: true },
+	], blinded_tail: None };
+	let params = PaymentParameters::from_node_id(net.ids[C], final_delta).with_max_total_cltv_expiry_delta(u32::MAX / 2);
+	let mut route_params = RouteParameters::from_payment_params_and_value(params, total);
+	route_params.max_total_routing_fee_msat = None;
+	let route = Route { paths: vec![path(amts[0], fees[0]), path(amts[1], fees[1])], route_params };
+	let id = PaymentId(hash.0);
+	let pos = net.trace.len();
+	let r = net.nodes[src].node.send_payment_with_route(route, hash, RecipientOnionFields::secret_only(secret, total), id);
+	net.pump(src);
+	if let Err(e) = r { return Err(format!("{:?}", e).chars().take(80).collect()); }
+	net.pays.push(PendingPay { hash, preimage, secret, amt: total, id, from: src, to: C });
+	let pay = net.pays.len() - 1;
+	Ok((0..2).map(|j| {
+		let up_id = net.trace[pos..].iter().find_map(|o| if let Obs::Msg { from, to: B, kind: "add", amt: a, htlc_id, .. } = o { if *from == src && *a == amts[j] + fees[j] { Some(*htlc_id) } else { None } } else { None });
+		Fwd { hash, preimage, src, up_chan: c_in, up_id, in_amt: amts[j] + fees[j], out_amt: amts[j], pay }
+	}).collect())
+}
+
 fn commitment_has(tx: &Transaction, amt_msat: u64) -> bool { tx.output.iter().any(|o| o.value.to_sat() == amt_msat / 1000) }
 
 fn latest_holder_commitment(net: &Net, node: usize, chan: usize) -> Option<Transaction> {
@@ -787,8 +816,16 @@ fn close_scenario_inner(net: &mut Net, rng: &mut Rng, sc: usize, thorough: bool,
 	let up_bal = |net: &Net| -> u64 { [c0, c2].iter().map(|c| { let (a, b, cid, _) = net.chans[*c]; let peer = if a == B { b } else { a }; vh::channel_value_to_self_msat(net.nodes[B].node, &net.ids[peer], &cid).unwrap_or(0) }).sum() };
 	let up_before = up_bal(net);
 	// ---- base HTLCs: fully committed on both links, claimable at C --------------------------------------------------
-	let n_base = 1 + rng.below(2) as usize;
-	for _ in 0..n_base {
+	let same_hash = rng.chance(1, 3);
+	let n_base = if same_hash { 2 } else { 1 + rng.below(2) as usize };
+	if same_hash {
+		let (a1, a2) = (next_amt(rng), next_amt(rng));
+		let fs = send_mpp_from(net, A, c0, c1, [a1, a2], [fee_of(a1), fee_of(a2)], delta as u32, 60 + rng.below(30) as u32, COUNTER.fetch_add(1, std::sync::atomic::Ordering::Relaxed))?;
+		net.settle(16);
+		if !net.claimable[C].iter().any(|c| c.0 == fs[0].hash) { return Err("same-hash base forwards did not reach C".into()); }
+		fwds.extend(fs);
+	}
+	for _ in 0..(if same_hash { 0 } else { n_base }) {
 		let amt = next_amt(rng);
 		let f = send_from(net, A, c0, c1, amt, fee_of(amt), delta as u32, 60 + rng.below(30) as u32, COUNTER.fetch_add(1, std::sync::atomic::Ordering::Relaxed))?;
 		net.settle(12);
@@ -820,7 +857,7 @@ fn close_scenario_inner(net: &mut Net, rng: &mut Rng, sc: usize, thorough: bool,
 		// claims a base HTLC (otherwise there is nothing to block on)
 		if hold && !injected_early { injected_early = true; if rng.chance(3, 4) && n_e < max_e { n_e += 1; let amt = next_amt(rng);
 			if let Ok(f) = send_from(net, E, c2, c1, amt, fee_of(amt), delta as u32, 60 + rng.below(30) as u32, COUNTER.fetch_add(1, std::sync::atomic::Ordering::Relaxed)) { fwds.push(f); } continue; } }
-		if hold && !did_claim_first { did_claim_first = true; let k = rng.below(n_base as u64) as usize; net.claimable[C].retain(|c| c.0 != fwds[k].hash); net.claim(fwds[k].pay); net.process_events(C); claimed.push(k); continue; }
+		if hold && !did_claim_first { did_claim_first = true; let k = rng.below(n_base as u64) as usize; net.claimable[C].retain(|c| c.0 != fwds[k].hash); net.claim(fwds[k].pay); net.process_events(C); for j in 0..fwds.len() { if fwds[j].hash == fwds[k].hash && !claimed.contains(&j) { claimed.push(j); } } continue; }
 		let b_waits = vh::channel_awaiting_remote_revoke(net.nodes[B].node, &net.ids[C], &net.chans[c1].2).unwrap_or(false);
 		let roll = if net.nodes[B].node.needs_pending_htlc_processing() && (b_waits || hold) && rng.chance(1, 2) { 10 } else { rng.below(20) };
 		match roll {
@@ -841,7 +878,7 @@ fn close_scenario_inner(net: &mut Net, rng: &mut Rng, sc: usize, thorough: bool,
 			16 | 17 => {
 				if claimed.len() < max_claims {
 					let cands: Vec<usize> = (0..fwds.len()).filter(|k| !claimed.contains(k) && net.claimable[C].iter().any(|c| c.0 == fwds[*k].hash)).collect();
-					if !cands.is_empty() { let k = *rng.pick(&cands); net.claimable[C].retain(|c| c.0 != fwds[k].hash); net.claim(fwds[k].pay); net.process_events(C); claimed.push(k); }
+					if !cands.is_empty() { let k = *rng.pick(&cands); net.claimable[C].retain(|c| c.0 != fwds[k].hash); net.claim(fwds[k].pay); net.process_events(C); for j in 0..fwds.len() { if fwds[j].hash == fwds[k].hash && !claimed.contains(&j) { claimed.push(j); } } }
 				}
 			},
 			_ => { net.process_events(B); },
@@ -858,10 +895,10 @@ fn close_scenario_inner(net: &mut Net, rng: &mut Rng, sc: usize, thorough: bool,
 		Obs::Msg { from: B, to: C, kind: "add", amt, .. } => *amt == f.out_amt,
 		Obs::Update { node: B, chan, cp_commit: Some((_, _, _, htlcs)), .. } => *chan == c1 && htlcs.iter().any(|h| h.1 == f.out_amt),
 		_ => false });
-	let held_exists = det.pending_outbound_htlcs.iter().any(|h| h.htlc_id.is_some() && h.state == Some(OutboundHTLCStateDetails::AwaitingRemoteRevokeToAdd) && !fwds.iter().any(|f| f.hash == h.payment_hash && was_sent(net, f)));
+	let held_exists = det.pending_outbound_htlcs.iter().any(|h| h.htlc_id.is_some() && h.state == Some(OutboundHTLCStateDetails::AwaitingRemoteRevokeToAdd) && !fwds.iter().any(|f| f.hash == h.payment_hash && f.out_amt == h.amount_msat && was_sent(net, f)));
 	let mut snaps: Vec<Snap> = vec![];
 	for (k, f) in fwds.iter().enumerate() {
-		if let Some(h) = det.pending_outbound_htlcs.iter().find(|h| h.payment_hash == f.hash) {
+		if let Some(h) = det.pending_outbound_htlcs.iter().find(|h| h.payment_hash == f.hash && h.amount_msat == f.out_amt) {
 			let seen = match (h.htlc_id, &h.state) { (None, _) => "hc", (_, Some(OutboundHTLCStateDetails::AwaitingRemoteRevokeToAdd)) => "la", (_, Some(OutboundHTLCStateDetails::Committed)) => "committed",
 				(_, Some(OutboundHTLCStateDetails::AwaitingRemoteRevokeToRemoveSuccess)) => "rm-ok", (_, Some(OutboundHTLCStateDetails::AwaitingRemoteRevokeToRemoveFailure)) => "rm-fail", _ => continue };
 			snaps.push(Snap { k, seen, sent: was_sent(net, f), c_has: commitment_has(&c_commit, f.out_amt), b_has: commitment_has(&b_commit, f.out_amt) });
@@ -910,7 +947,7 @@ fn close_scenario_inner(net: &mut Net, rng: &mut Rng, sc: usize, thorough: bool,
 	out.classes.push(format!("close:{}:blocker={}:htlcs={}", ["api", "peer-error", "bad-fulfill"][variant as usize], hold as u8, snaps.len()));
 	// ---- the chain: C claims what it can; one of the two commitments confirms --------------------------------------------
 	for k in 0..fwds.len() { if !claimed.contains(&k) && net.claimable[C].iter().any(|c| c.0 == fwds[k].hash) && rng.chance(4, 5) {
-		net.claimable[C].retain(|c| c.0 != fwds[k].hash); net.claim(fwds[k].pay); net.process_events(C); claimed.push(k); } }
+		net.claimable[C].retain(|c| c.0 != fwds[k].hash); net.claim(fwds[k].pay); net.process_events(C); for j in 0..fwds.len() { if fwds[j].hash == fwds[k].hash && !claimed.contains(&j) { claimed.push(j); } } } }
 	net.q.remove(&(C, B));
 	if c_learns { for w in held_bc { net.q.entry((B, C)).or_default().push_back(w); } while net.queued(B, C) > 0 { net.deliver(B, C); } net.process_events(C); net.q.remove(&(C, B)); }
 	let b_tx = { let v = net.nodes[B].tx_broadcaster.txn_broadcasted.lock().unwrap(); v[bcast_before.min(v.len())..].iter().find(|t| t.input.len() == 1 && t.input[0].previous_output == b_commit.input[0].previous_output).cloned() };
@@ -956,12 +993,26 @@ fn close_scenario_inner(net: &mut Net, rng: &mut Rng, sc: usize, thorough: bool,
 		if !pending_up && mined.len() > 1 { break; }
 	}
 	// ---- accounting per forwarded HTLC: received upstream vs paid downstream ----------------------------------------------
+	// everything B still owes upstream is flushed before the books are read
+	for _ in 0..12 {
+		let mut any = false;
+		net.q.remove(&(B, C)); net.q.remove(&(C, B));
+		for l in [(A, B), (B, A), (E, B), (B, E)] { while net.queued(l.0, l.1) > 0 { net.deliver(l.0, l.1); any = true; } }
+		for i in [A, B, E] { if net.nodes[i].node.needs_pending_htlc_processing() { net.forward(i); any = true; } let before = net.trace.len(); net.process_events(i); if net.trace.len() > before { any = true; } }
+		if !any { break; }
+	}
 	let mut net_gain: i128 = 0; let mut all_resolved = true; let mut detail: Vec<String> = vec![];
+	let mut chain_claims: Vec<(usize, lightning::types::payment::PaymentHash, u64, bool)> = vec![];
 	for (k, f) in fwds.iter().enumerate() {
 		let up_ok = up_msg(net, f, 0, &["fulfill"]);
 		let up_fail = up_msg(net, f, 0, &["fail", "malformed"]);
 		if !up_ok && !up_fail { all_resolved = false; }
-		let onchain = mined.iter().any(|t| t.input.iter().any(|i| i.witness.iter().any(|w| w == &f.preimage.0[..])));
+		// the preimage spend of THIS HTLC's output of the confirmed commitment (HTLCs sharing a payment hash are told apart by output)
+		let onchain_out = confirmed.output.iter().position(|o| o.value.to_sat() == f.out_amt / 1000).map(|vout| mined.iter().any(|t| t.input.iter().any(|i|
+			i.previous_output.txid == confirmed.compute_txid() && i.previous_output.vout == vout as u32 && i.witness.iter().any(|w| w == &f.preimage.0[..])))).unwrap_or(false);
+		let shares_hash = fwds.iter().enumerate().any(|(j, g)| j != k && g.hash == f.hash);
+		let onchain = mined.iter().any(|t| t.input.iter().any(|i| i.witness.iter().any(|w| w == &f.preimage.0[..]))) && (!shares_hash || onchain_out);
+		if onchain_out { chain_claims.push((k, f.hash, f.out_amt, up_ok)); }
 		let offchain = claimed.contains(&k) && !onchain && (snaps.iter().any(|sn| sn.k == k && sn.seen == "rm-ok") || !snaps.iter().any(|sn| sn.k == k)) && net.trace[..close_pos].iter().any(|o| matches!(o, Obs::Msg { from: B, to: C, kind: "add", amt, .. } if *amt == f.out_amt));
 		let paid_down = onchain || offchain;
 		if up_ok { net_gain += f.in_amt as i128; }
@@ -971,6 +1022,24 @@ fn close_scenario_inner(net: &mut Net, rng: &mut Rng, sc: usize, thorough: bool,
 		if up_fail && paid_down { out.oracle.push(format!("close scenario {}: Σ value_to_self of the forwarder (incl. the on-chain outcome of the closed channel) decreased after resolution: HTLC of {} msat was failed backwards upstream and {} by the next hop (close by {}, {}'s commitment confirmed, RAA blocker: {}, held update: {})",
 			sc, f.out_amt, if onchain { "claimed on chain with the preimage" } else { "fulfilled" }, vname, if use_c { "C" } else { "B" }, hold, held_exists)); }
 		out.classes.push(format!("outcome:{}{}", if up_ok { "claimed-upstream" } else if up_fail { "failed-upstream" } else { "pending-upstream" }, if onchain { "+on-chain-downstream" } else if offchain { "+off-chain-downstream" } else { "" }));
+	}
+	// ---- oracle (c) + model line: every HTLC whose output the next hop spent on chain with the preimage is claimed upstream ------
+	if !chain_claims.is_empty() {
+		let mut hash_ids: Vec<lightning::types::payment::PaymentHash> = vec![];
+		let mut toks: Vec<String> = vec![]; let mut got: Vec<String> = vec![];
+		for (k, h, amt, up_ok) in &chain_claims {
+			let hid = match hash_ids.iter().position(|x| x == h) { Some(p) => p, None => { hash_ids.push(*h); hash_ids.len() - 1 } };
+			toks.push(format!("{}:{}:{}", k, hid, amt));
+			if *up_ok { got.push(k.to_string()); }
+			else {
+				out.oracle.push(format!("close scenario {}: the next hop claimed the forwarded HTLC of {} msat (source #{}, one of {} HTLC(s) with this payment hash on the channel) on chain with the preimage from {}'s commitment, the forwarder's monitor saw the spend, but the forwarder never claimed the inbound HTLC of {} msat upstream (on-chain preimage claims in this run: {:?})",
+					sc, amt, k, chain_claims.iter().filter(|c| c.1 == *h).count(), if use_c { "its own" } else { "the forwarder" }, fwds[*k].in_amt, chain_claims.iter().map(|c| format!("#{}:{}msat:claimed-upstream={}", c.0, c.2, c.3)).collect::<Vec<_>>()));
+			}
+		}
+		let n_same = chain_claims.iter().filter(|c| chain_claims.iter().filter(|d| d.1 == c.1).count() > 1).count();
+		out.lines.push((format!("onchain {} {} {}", fwds.len(), use_c as u8, toks.join(",")), format!("claimed {}", if got.is_empty() { "-".to_string() } else { got.join(",") }),
+			format!("onchain:{}:claims={}:same-hash={}", if use_c { "accepted" } else { "offered" }, chain_claims.len(), n_same), true));
+		if n_same > 0 { out.classes.push(format!("chain:same-hash-htlcs-claimed-on-chain-in-one-run={}", n_same)); }
 	}
 	let up_after = up_bal(net);
 	if all_resolved {
@@ -1025,7 +1094,7 @@ fn main() {
 			}
 		}
 		for (k, v) in class_hist { *rec.classes.entry(k).or_insert(0) += v; }
-		rec.notes.insert("rule".into(), "4 real nodes A-B-C, E-B (legacy channels); 1-2 forwarded HTLCs committed on both links, then a random schedule (single message deliveries over all links, monitor-update completions with or without the inbound edge's preimage update held back as RAA blocker, C's claims, further forwards from E or A that land in the holding cell / a sent or a held commitment) cut at a random point by a force-close of B-C (API call, error message from C, invalid update_fulfill_htlc from C); per HTLC on B-C at that instant one case (distinct by scenario and HTLC); afterwards C's or B's commitment is mined, C claims on chain, 1/3 of the scenarios run until the timeouts".into());
+		rec.notes.insert("rule".into(), "4 real nodes A-B-C, E-B (legacy channels); 1-2 forwarded HTLCs committed on both links, then a random schedule (single message deliveries over all links, monitor-update completions with or without the inbound edge's preimage update held back as RAA blocker, C's claims, further forwards from E or A that land in the holding cell / a sent or a held commitment) cut at a random point by a force-close of B-C (API call, error message from C, invalid update_fulfill_htlc from C); per HTLC on B-C at that instant one case (distinct by scenario and HTLC); afterwards C's or B's commitment is mined, C claims on chain, 1/3 of the scenarios run until the timeouts; in 1/3 of the scenarios the base HTLCs are TWO forwards with the SAME payment hash (one MPP payment, both parts over A-B and B-C), so that both HTLC outputs are claimed with the same preimage in one block; one `onchain` case per scenario in which the next hop spent forwarded HTLC outputs with a preimage (sources told apart by commitment output)".into());
 	} else if args.model == "c02hop" {
 		let (n_scen, n_cases) = if args.thorough { (60, 400) } else { (14, 150) };
 		for sc in 0..n_scen * args.scale as usize {
